@@ -161,6 +161,17 @@ def run_for_property(prop: str, jobs: int = 16) -> int:
     root = os.environ.get("SA_REPO", "/repo")
     code, _ = run([prop], root, jobs)
     code2, _ = run_seeds(prop, root)
+    # generated equivalent mutants of the files this property anchors in: the check must stay silent on them. A non-silent
+    # variant is printed (it is a false alarm / lost construct of the checker, to be fixed) but does not fail the run: the
+    # variants are random and this is a measurement, not an obligation
+    try:
+        from . import equiv
+
+        equiv.main(["--n", os.environ.get("SA_EQUIV_N", "24"), "--props", prop, "--jobs", str(jobs), "--repo", root, "--seed", os.environ.get("VERIF_SEED", "1") or "1"])
+    except SystemExit:
+        pass
+    except Exception as e:  # pragma: no cover
+        print(f"[equiv] skipped: {type(e).__name__}: {e}")
     return code or code2
 
 
